@@ -203,9 +203,10 @@ func immConst(t immType, i instruction) expr.Const {
 	if !ok {
 		panic(fmt.Sprintf("immediate encoding %d has no value", t))
 	}
-	// Immediatealways contains at most 20 bits, so 32 bits is always
-	// enough.
-	return expr.ConstFromInt(imm)
+	// The immediate is sign-extended to 64 bits, so that it keeps its value
+	// in operations of any width up to XLEN (wider operations zero-extend
+	// their arguments).
+	return expr.ConstFromInt(int64(imm))
 }
 
 func regLoad(r reg, i instruction, w expr.Width) expr.Expr {
